@@ -23,6 +23,17 @@ def parse_req(body, spec):
         return ('o', s[2:])
     parts = s.split('.')
     k = body.param_index(parts[0])
+    if k is None and len(parts) > 1:
+        # `name.field` where the parameter was renamed (a helper turned into a method: `init_res.Abar` is now `self.Abar`): the one
+        # parameter whose type is a struct of this crate with a field of that name
+        owners = []
+        for j in range(1, body.arg_count + 1):
+            ty = body.local_ty(j).replace('&mut ', '').lstrip('&').strip()
+            adt = body.prog.adts.get(ty) if getattr(body, 'prog', None) is not None else None
+            if adt and any(f['name'] == parts[1] for v in adt['variants'] for f in v['fields']):
+                owners.append(j)
+        if len(owners) == 1:
+            k = owners[0]
     if k is None:
         raise AnchorMissing('function %s has no parameter named %r' % (body.path, parts[0]))
     return ('p', k, tuple(parts[1:]))
